@@ -95,7 +95,7 @@ def new_module(rng, ws, name, earlier):
         parent = None
         if u["uses"] and rng.random() < 0.6:
             src = ws["files"][f"{u['uses'][0]['mod']}.f90"]
-            acc = accessible_types(u["uses"][0], src)
+            acc = accessible_types(u["uses"][0], src, ws)
             if acc:
                 parent = rng.choice(acc)
         elif u["types"] and rng.random() < 0.4:
@@ -123,8 +123,17 @@ def new_module(rng, ws, name, earlier):
     return u
 
 
-def accessible_types(use, src):
+def accessible_types(use, src, ws=None, depth=0):
     names = [t["name"] for t in src["types"]]
+    if ws is not None and depth < 3 and use["only"] is None and not src.get("private_default"):
+        # types re-exported by the used module from the modules it uses itself
+        for u2 in src.get("uses", []):
+            src2 = None
+            for unit in ws["files"].values():
+                if unit.get("kind") == "module" and unit.get("name") == u2["mod"]:
+                    src2 = unit
+            if src2 is not None:
+                names += [n for n in accessible_types(u2, src2, ws, depth + 1) if n not in names]
     if src.get("private_default"):
         names = [n for n in names if n in src.get("public", [])]
     if use["only"] is None:
